@@ -347,6 +347,16 @@ impl Sys {
 }
 
 pub fn replay(v: &Value) -> (bool, Value) {
+    if v["engine"] == "c05len" {
+        let n = v["len"].as_u64().unwrap() as usize;
+        let mut r = Response::new(Version::Http11, StatusCode::OK);
+        r.set_body(Body::new(vec![b'x'; n]));
+        let mut b = vec![];
+        r.write_all(&mut b).unwrap();
+        let res = read_one(&b);
+        let bad = !matches!(&res, ReadResult::Complete(p) if p.len == b.len() && p.body.len() == n);
+        return (bad, json!({"len": n, "head": util::show(&b[..b.len().min(160)]), "read": format!("{:?}", res).chars().take(300).collect::<String>()}));
+    }
     let sys = Sys { bodies: bodies(v["big"].as_u64().unwrap_or(2000) as usize), max_calls: v["max_calls"].as_u64().unwrap_or(5) as usize };
     let path: Vec<Call> = v["actions"].as_array().unwrap().iter().map(|x| dec(x.as_u64().unwrap())).collect();
     let t = sys.trace(&path);
@@ -358,7 +368,7 @@ pub fn run(thorough: bool) -> Vec<Part> {
         return vec![];
     }
     let mut part = Part::new("C05", "builder-states-r", "model_checking");
-    part.assume("breadth-first search over Response builder states: 2 versions x 11 status codes x all call sequences of length <= N (N = 4 quick, 5 thorough) over set_body (6 bodies: empty, 1 byte, contains CRLFCRLF, looks like a response, NUL/0xFF/CRLF bytes, large), set_content_type x2, set_deprecation, set_encoding, set_server x2, set_allow x3, allow_method x3, de-duplicated on the Debug rendering of the Response; every state is serialized into sinks accepting 1, 2, 3, 7, 64 bytes per write and 6 mixed patterns and re-read by an independent response reader, alone and followed by other bytes");
+    part.assume("breadth-first search over Response builder states: 2 versions x 11 status codes x all call sequences of length <= N (N = 4 quick, 5 thorough) over set_body (6 bodies: empty, 1 byte, contains CRLFCRLF, looks like a response, NUL/0xFF/CRLF bytes, large), set_content_type x2, set_deprecation, set_encoding, set_server x2, set_allow x3, allow_method x3, de-duplicated on the Debug rendering of the Response; a sweep over body lengths (every length 0..4200 plus boundaries up to 64 KiB quick; every length 0..65536 thorough); every state is serialized into sinks accepting 1, 2, 3, 7, 64 bytes per write and 6 mixed patterns and re-read by an independent response reader, alone and followed by other bytes");
     part.assume("the default Content-Type and Server values are not judged (the statement names the lines, not their defaults); set_content_length is exercised only by the 'unless explicitly set' side check; header text containing CR/LF passed to set_server is outside the property");
     let sys = Sys { bodies: bodies(if thorough { 65536 } else { 3000 }), max_calls: if thorough { 5 } else { 4 } };
     let limits = Limits { max_states: 12_000_000, max_secs: if thorough { 3000.0 } else { 100.0 }, ..Default::default() };
@@ -389,5 +399,69 @@ pub fn run(thorough: bool) -> Vec<Part> {
         }
     }
     part.set("explicit_content_length_side_checks", json!(side));
+    // body-length sweep: every body length in the quantified range (0..64 KiB)
+    let lens: Vec<usize> = if thorough {
+        (0..=65536usize).collect()
+    } else {
+        let mut v: Vec<usize> = (0..=4200usize).collect();
+        let mut p10 = 10_000usize;
+        while p10 <= 100_000 {
+            for d in [-2i64, -1, 0, 1, 2, 99, 100, 101] {
+                let x = p10 as i64 + d;
+                if x <= 65536 {
+                    v.push(x as usize);
+                }
+            }
+            p10 *= 10;
+        }
+        for sh in 12..=16 {
+            for d in [-1i64, 0, 1] {
+                v.push(((1i64 << sh) + d).min(65536) as usize);
+            }
+        }
+        let mut x = 4201;
+        while x < 65536 {
+            v.push(x);
+            x += 251;
+        }
+        v.extend_from_slice(&[9999, 10999, 11000, 19999, 20000, 32767, 32768, 65535, 65536]);
+        v.sort();
+        v.dedup();
+        v
+    };
+    let block = 64usize;
+    let lens2 = lens.clone();
+    let t = crate::par::par_enum(
+        ((lens.len() + block - 1) / block) as u64,
+        workers(),
+        300,
+        move |blk, t| {
+            for &n in lens2.iter().skip(blk as usize * block).take(block) {
+                for (sc, code) in [(StatusCode::OK, 200u16), (StatusCode::NoContent, 204)] {
+                    let mut r = Response::new(Version::Http11, sc);
+                    let body: Vec<u8> = (0..n).map(|i| (i % 251) as u8).collect();
+                    r.set_body(Body::new(body.clone()));
+                    let mut b = vec![];
+                    r.write_all(&mut b).unwrap();
+                    b.extend_from_slice(b"HTTP/1.1 204 \r\nServer: x\r\nConnection: keep-alive\r\n\r\n");
+                    t.evals += 1;
+                    if n >= 10 {
+                        t.nontrivial += 1;
+                    }
+                    let (rs, used, tail) = read_all(&b);
+                    let ok = tail.is_ok() && used == b.len() && rs.len() == 2 && rs[0].code == code && rs[0].body == body && rs[0].header("Content-Length") == Some(n.to_string().as_str()) && rs[1].code == 204;
+                    if !ok {
+                        t.violate("body-length-framing", format!("a {} response with a {}-byte body followed by another response does not read back: parsed {} responses using {} of {} bytes, Content-Length {:?}, tail {:?}", code, n, rs.len(), used, b.len(), rs.first().and_then(|r| r.header("Content-Length").map(|s| s.to_string())), tail), json!({"engine": "c05len", "len": n}));
+                    }
+                }
+                if n == 1000 {
+                    t.sample(json!({"body_length": n, "statuses": [200, 204]}));
+                }
+            }
+        },
+        |blk| format!("body lengths block {}", blk),
+    );
+    t.record(&mut part, "body-length-sweep");
+    part.set("body_lengths_swept", json!(lens.len()));
     vec![part]
 }
